@@ -105,6 +105,7 @@ def handleCmp (l : Line) : IO Unit := do
       p21 := bitsD l "ip21", psh := bitsD l "ipsh", psc := bitsD l "ipsc",
       delta := unhexStr (l.getD "idelta"), str := unhexStr (l.getD "istr"), warn := l.getD "iwarn" }
   let v := Spec.MathSpec.judgeCompare a (bitsList (l.getD "v1")) (bitsList (l.getD "v2")) (bitsD l "alpha") old new impl
+    ((l.getD "k").toInt?.getD 0)
   IO.println s!"spec {id} {v}"
 
 def handleFd (l : Line) : IO Unit := do
@@ -123,8 +124,24 @@ def handlePr (l : Line) : IO Unit := do
   IO.println s!"obs {id} pct={hexStr (Render.pctRangeString s)}"
   IO.println s!"spec {id} pct={Spec.MathSpec.judgePct s.center s.lo s.hi (unhexStr (l.getD "ipct"))}"
 
+/-- the real code panicked on this case. The model has no panics of its own on non-empty samples; the
+one place a panic can come from is an external call it takes as data (`wp=panic`: moremath's Welch
+t-test did not return; `assumeNormal.Compare` does not recover). -/
+def handlePanic (l : Line) : IO Unit := do
+  let id := l.id
+  let kind := l.getD "kind"
+  let a := l.getD "a"
+  if kind == "cmp" && a == "normal" && l.getD "wp" == "panic" then
+    IO.println s!"obs {id} panic"
+  else
+    IO.println s!"obs {id} no-panic-in-model"
+  IO.println s!"spec {id} {Spec.MathSpec.judgePanic kind a (bitsList (l.getD "v1")) (bitsList (l.getD "v2"))}"
+
 def handle (l : Line) : IO Unit := do
   if l.kind != "case" then return
+  if l.getD "panic" == "1" then
+    handlePanic l
+    return
   match l.getD "kind" with
   | "sum" => handleSum l
   | "cmp" => handleCmp l
